@@ -110,7 +110,7 @@ def all_any(a: Tuple[str, ...], b: Tuple[str, ...]) -> bool:
 
 SRC2 = '''
 from collections import OrderedDict, defaultdict
-from typing import Dict, Set, Tuple
+from typing import Dict, List, Optional, Set, Tuple, Union
 from uuid import UUID
 
 
@@ -288,6 +288,21 @@ def with_default(a: Tuple[str, ...], x: str = "a") -> int:
         if y == x:
             n += 1
     return n
+
+
+def tagged(a: Tuple[str, ...], b: Tuple[str, ...], mode: Optional[str] = None) -> Union[Set[str], List[str]]:
+    if mode is not None and mode not in ("sorted", "merge"):
+        raise ValueError(f"bad mode {mode}")
+    tags = {f"{x}~{x}" for x in a}
+    if mode is None:
+        return tags
+    if mode == "sorted":
+        return sorted(tags)
+    out: List[str] = []
+    out.extend(x for x in a if x not in out)
+    out.extend(y for y in b if y not in out)
+    out.sort()
+    return out
 
 
 def mutate_and_raise(a: Set[UUID], b: Set[UUID]) -> bool:
@@ -504,6 +519,8 @@ GOOD2 = [
     T("nested_pattern", [("a", TS), ("b", TS)], "int"), T("mutate_and_raise", [("a", SS), ("b", SS)], "bool"),
     T("prune", [("a", TS), ("b", TS)], "int"), T("del_missing", [("a", TS)], "int"),
     Target("with_default", "selftest_src.py", None, "with_default", [("a", TS), ("x", "str")], "int", defaults={"x": "'a'"}),
+    Target("tagged", "selftest_src.py", None, "tagged", [("a", TS), ("b", TS), ("mode", "Optional[str]")],
+           "Union[Set[str], List[str]]", defaults={"mode": "None"}),
 ]
 BAD = [("with_default", [("a", TS), ("x", "str")], "int"),       # a default value the target does not declare
        ("r_iter_built_set", [("a", TS)], "str"), ("r_defaultdict_read", [("a", TS)], "int"),
@@ -539,16 +556,23 @@ def enc(v, ann):
         return "[" + "; ".join(cq_str(x) + "%string" for x in v) + "]"
     if ann == SS:
         return "[" + "; ".join(f"{x}%nat" for x in v) + "]"
+    if ann == "Optional[str]":
+        return "None" if v is None else f"(Some {cq_str(v)}%string)"
+    if ann == "Union[Set[str], List[str]]":     # only as an expected result: (is it a set, its elements)
+        return "(" + ("inl " if v[0] else "inr ") + "[" + "; ".join(cq_str(x) + "%string" for x in v[1]) + "])"
     raise KeyError(ann)
 
 
 def domain(ann):
     from uuid import UUID  # noqa: F401
     return {"int": [-1, 0, 1, 2], "bool": [False, True], "str": ["", "a", "x", "z", "y", "a~b", "~xa", "a~x__b~c", "w"],
-            TS: tuples("ab", 3) + [("ab", "a"), ("abc", "", "b")], SS: subsets(3)}[ann]
+            TS: tuples("ab", 3) + [("ab", "a"), ("abc", "", "b")], SS: subsets(3),
+            "Optional[str]": [None, "sorted", "merge", "x"]}[ann]
 
 
-EQ = {"int": "Z.eqb", "bool": "Bool.eqb", "str": "String.eqb", SS: "py_set_eqb Nat.eqb", TS: "py_list_eqb String.eqb"}
+UNION_EQ = ("(fun x y => match x, y with inl a, inl b => py_set_eqb String.eqb a b | inr a, inr b => py_list_eqb String.eqb a b "
+            "| _, _ => false end)")
+EQ = {"Union[Set[str], List[str]]": UNION_EQ, "int": "Z.eqb", "bool": "Bool.eqb", "str": "String.eqb", SS: "py_set_eqb Nat.eqb", TS: "py_list_eqb String.eqb"}
 
 
 def plan_tests(d: Path, reserved: set) -> int:
@@ -702,7 +726,8 @@ def main() -> int:
                 exc = None
             except Exception as ex:  # noqa: BLE001
                 r, exc = None, type(ex).__name__
-            back = lambda v, a: sorted(u.int - 1 for u in v) if a == SS else list(v) if a == TS else v  # noqa: E731
+            back = lambda v, a: (sorted(u.int - 1 for u in v) if a == SS else list(v) if a == TS  # noqa: E731
+                                 else (isinstance(v, set), sorted(v) if isinstance(v, set) else list(v)) if a.startswith("Union") else v)
             call = f"{t.name} " + " ".join(enc(v, a) for v, (_, a) in zip(args, t.params))
             if f.partial and mutated:       # (res R) * the mutated parameters: they are left behind when it raises, too
                 pat = ", ".join([f"m{k}" for k in range(len(mutated))])
